@@ -193,7 +193,10 @@ Definition admissible (s : st) (o : op) : Prop :=
   | Extend _ us | IAdd _ us => NoDup us /\ (forall u, In u us -> unlisted s u)
   | SetItem q i u =>
       unlisted s u \/ (exists n, norm_index (length (kids_of s q)) i = Some n /\ nth n (kids_of s q) 0 = u)
-  | SetSlice _ _ _ us => NoDup us /\ (forall u, In u us -> unlisted s u)
+  | SetSlice q a b us =>      (* new units, or units of the replaced window itself (a filtered / reordered / re-assigned window) *)
+      NoDup us /\ (forall u, In u us -> unlisted s u \/
+                     In u (firstn (snd (slice_bounds (length (kids_of s q)) a b) - fst (slice_bounds (length (kids_of s q)) a b))
+                                  (skipn (fst (slice_bounds (length (kids_of s q)) a b)) (kids_of s q))))
   | _ => True
   end.
 
@@ -280,7 +283,8 @@ Proof.
   - intros y Hy Ny. rewrite E in Hy. inr. destruct Hy as [Hy|[Hy|Hy]]; [exfalso; apply Ny; tauto | left; assumption | exfalso; apply Ny; tauto].
 Qed.
 
-Lemma inv_slice s q lo hi us : Inv s -> lo <= hi -> NoDup us -> (forall u, In u us -> unlisted s u) ->
+Lemma inv_slice s q lo hi us : Inv s -> lo <= hi -> NoDup us ->
+  (forall u, In u us -> unlisted s u \/ In u (firstn (hi - lo) (skipn lo (kids_of s q)))) ->
   Inv (update s q (firstn lo (kids_of s q) ++ us ++ skipn hi (kids_of s q))
               (firstn (hi - lo) (skipn lo (kids_of s q))) us).
 Proof.
@@ -290,7 +294,9 @@ Proof.
   pose proof (inv_nodup s I q) as ND. rewrite E in ND. apply NoDup_app_iff in ND. destruct ND as [N1 [N23 D1]].
   apply NoDup_app_iff in N23. destruct N23 as [Nm [N2 D2]].
   assert (NU : forall u, In u us -> ~ In u l1 /\ ~ In u l2).
-  { intros u Hu. pose proof (unlisted_not_in s q u I (U u Hu)) as N. rewrite E in N. split; intro X; apply N; inr; tauto. }
+  { intros u Hu. destruct (U u Hu) as [Un|Mid].
+    - pose proof (unlisted_not_in s q u I Un) as N. rewrite E in N. split; intro X; apply N; inr; tauto.
+    - split; intro X; [apply (D1 u X); inr; tauto | apply (D2 u Mid X)]. }
   apply update_inv; try assumption.
   - apply NoDup_app_iff. split; [assumption|]. split.
     + apply NoDup_app_iff. split; [assumption|]. split; [assumption|]. intros y Hy Hz. apply (proj2 (NU y Hy)). assumption.
@@ -298,7 +304,7 @@ Proof.
   - intros y Hy. inr. destruct Hy as [Hy|[Hy|Hy]]; [| left; assumption |].
     + right. split; [rewrite E; inr; tauto|]. intro X. apply (D1 y Hy). inr. tauto.
     + right. split; [rewrite E; inr; tauto|]. intro X. apply (D2 y X). assumption.
-  - intros y Hy. split; [inr; tauto | left; apply U; assumption].
+  - intros y Hy. split; [inr; tauto |]. destruct (U y Hy) as [Un|Mid]; [left; exact Un | right; rewrite E; inr; tauto].
   - intros y Hy. rewrite E. inr. tauto.
   - intros y Hy Ny. rewrite E in Hy. inr. destruct Hy as [Hy|[Hy|Hy]]; [exfalso; apply Ny; tauto | assumption | exfalso; apply Ny; tauto].
 Qed.
@@ -405,7 +411,7 @@ Proof.
     apply inv_setitem; [assumption | eapply norm_index_lt; eassumption|].
     destruct A as [A|[n' [E' A]]]; [left; assumption | right; congruence].
   - cbn [step]. destruct (slice_bounds (length (kids_of s s0)) a b) as [lo hi] eqn:E. cbn [fst].
-    destruct A. apply inv_slice; try assumption. eapply slice_bounds_le; eassumption.
+    destruct A as [A1 A2]. cbn [fst snd] in A2. apply inv_slice; try assumption. eapply slice_bounds_le; eassumption.
   - cbn [step]. destruct (norm_index (length (kids_of s s0)) i) as [n|] eqn:E; cbn [fst]; [|assumption].
     apply inv_remove_nth; [assumption | eapply norm_index_lt; eassumption].
   - cbn [step]. destruct (slice_bounds (length (kids_of s s0)) a b) as [lo hi] eqn:E. cbn [fst].
